@@ -16,6 +16,7 @@ pub mod c10;
 pub mod c11;
 pub mod c12;
 pub mod c13;
+pub mod c14;
 pub mod c15;
 pub mod c16;
 pub mod c17;
@@ -47,6 +48,7 @@ pub fn get(id: &str) -> Option<PropDef> {
         "C11" => Some(c11::def()),
         "C12" => Some(c12::def()),
         "C13" => Some(c13::def()),
+        "C14" => Some(c14::def()),
         "C15" => Some(c15::def()),
         "C16" => Some(c16::def()),
         "C17" => Some(c17::def()),
